@@ -604,6 +604,22 @@ class Interp:
                 return SuperProxy(frame.owner, frame.self_obj)
             if f in (str, int, len):
                 return self.call_builtin(f, args, kwargs)
+            if f is tuple and len(args) == 1 and isinstance(args[0], ListObj):
+                return ListObj(list(args[0].segs))
+            if f is tuple and len(args) == 1 and isinstance(args[0], list):
+                return ListObj([("elem", x) for x in args[0]])
+            if f is zip and len(args) == 2:
+                a, b = args
+                def as_list(x):
+                    if isinstance(x, ListObj):
+                        self.normalize_list(x)
+                        if not all(k == "elem" for k, _ in x.segs):
+                            raise Untranslatable("zip over a list of unknown length")
+                        return [e for _, e in x.segs]
+                    if isinstance(x, list):
+                        return x
+                    raise Untranslatable("zip of %r" % (x,))
+                return [ListObj([("elem", p), ("elem", q)]) for p, q in zip(as_list(a), as_list(b))]
             if f is dict:
                 d = {}
                 for a in args:
@@ -636,6 +652,12 @@ class Interp:
                 self.normalize_list(a)
                 if all(k == "elem" for k, _ in a.segs):
                     return len(a.segs)
+                n = sum(1 for k, _ in a.segs if k == "elem")
+                out = n
+                for k, x in a.segs:
+                    if k == "sym":
+                        out = SInt("add", out, SInt("var", "((%s).length : Int)" % x))
+                return out
             raise Untranslatable("len of %r" % (a,))
         if f is sum:
             (a,) = args
@@ -717,8 +739,10 @@ class Interp:
         return obj
     def call_function(self, fn, args, kwargs, owner, self_obj):
         node = func_ast(fn)
-        if node.decorator_list and not all(isinstance(d, ast.Name) and d.id in ("property", "classmethod")
-                                           for d in node.decorator_list):
+        if node.decorator_list and not all(
+                (isinstance(d, ast.Name) and d.id in ("property", "classmethod")) or
+                (isinstance(d, ast.Attribute) and d.attr == "setter" and isinstance(d.value, ast.Name))
+                for d in node.decorator_list):
             raise Untranslatable("decorated function %s" % fn.__name__)
         frame = Frame(fn, owner, self_obj)
         self.bind(node, fn, frame, list(args), dict(kwargs))
@@ -799,6 +823,20 @@ class Interp:
                 self.exec_block(s.body, frame)
             else:
                 self.exec_block(s.orelse, frame)
+        elif isinstance(s, ast.For):
+            if s.orelse:
+                raise Untranslatable("for ... else")
+            it = self.eval(s.iter, frame)
+            if isinstance(it, ListObj):
+                self.normalize_list(it)
+                if not all(k == "elem" for k, _ in it.segs):
+                    raise Untranslatable("loop over a list of unknown length")
+                it = [x for _, x in it.segs]
+            if not isinstance(it, list):
+                raise Untranslatable("loop over %r" % (it,))
+            for x in it:
+                self.assign(s.target, x, frame)
+                self.exec_block(s.body, frame)
         elif isinstance(s, ast.Pass):
             pass
         elif isinstance(s, ast.Assert):
@@ -1079,6 +1117,9 @@ class Interp:
             return d
         if isinstance(e, ast.List) or isinstance(e, ast.Tuple):
             return ListObj([("elem", self.eval(x, frame)) for x in e.elts])
+        if isinstance(e, ast.JoinedStr):
+            # only ever used to build exception messages here: kept opaque
+            return "<formatted message>"
         if isinstance(e, ast.IfExp):
             return self.eval(e.body if self.truth(self.eval(e.test, frame)) else e.orelse, frame)
         raise Untranslatable("expression %s" % type(e).__name__)
@@ -1739,4 +1780,73 @@ def translate_child_context(V):
                 out.append((name, params, build_tree(paths, 0, 1), None, len(paths)))
             except Untranslatable as e:
                 out.append((name, params, None, str(e), 0))
+    return out
+
+
+# ---------------------------------------------------------------------------------------------
+# `item.children` (getter) and `item.children = value` (setter)
+# ---------------------------------------------------------------------------------------------
+
+def translate_children(T):
+    """for every concrete class: the list the `children` property returns, and what assigning a list of `k` items
+    (k = 0..3 fixed items, or a list of unknown length) does: the new node or `ValueError`"""
+    out = []
+    for cname in PRINT_CLASSES:
+        def run_get(oracle, cname=cname):
+            it = Interp(oracle)
+            o, params = class_inputs(T, cname)
+            run_get.params = params
+            try:
+                res = it.getattr_(o, "children", None)
+            except PyRaise as e:
+                return emit_raise(e)
+            if isinstance(res, list):
+                res = ListObj([("elem", x) for x in res])
+            if not isinstance(res, ListObj):
+                raise Untranslatable("children is not a list")
+            return "Except.ok %s" % emit_list(it, res)
+        try:
+            paths = explore(run_get)
+            out.append(("children_%s" % cname, cname, run_get.params, "(List Tree)", build_tree(paths, 0, 1), None,
+                        len(paths)))
+        except Untranslatable as e:
+            out.append(("children_%s" % cname, cname, None, "(List Tree)", None, str(e), 0))
+        for k in (0, 1, 2, 3, "n"):
+            if k == "n" and not cname.endswith("Operation"):
+                continue
+            def run_set(oracle, cname=cname, k=k):
+                it = Interp(oracle)
+                o, params = class_inputs(T, cname)
+                if k == "n":
+                    value = ListObj([("sym", "vs")])
+                    extra = ["(vs : List Tree)"]
+                else:
+                    objs = [Obj(None, lean="v%d" % i, lay="v%d.lay" % i) for i in range(k)]
+                    value = ListObj([("elem", x) for x in objs])
+                    extra = ["(v%d : Tree)" % i for i in range(k)]
+                run_set.params = params + extra
+                cls = o.cls
+                setter = None
+                for c in cls.__mro__:
+                    if "children" in c.__dict__ and isinstance(c.__dict__["children"], property):
+                        setter = (c, c.__dict__["children"].fset)
+                        break
+                if setter is None or setter[1] is None:
+                    raise Untranslatable("no children setter")
+                o.lean = None          # the node is rebuilt from its attributes
+                o.lay_expr = "l"
+                try:
+                    it.call_function(setter[1], [o, value], {}, owner=setter[0], self_obj=o)
+                except PyRaise as e:
+                    return emit_raise(e)
+                for a in LAY_ATTRS:
+                    it.getattr_(o, a, None)
+                    o.written.add(a)
+                return "Except.ok %s" % emit_obj(it, o)
+            name = "set_children_%s_%s" % (cname, k)
+            try:
+                paths = explore(run_set)
+                out.append((name, cname, run_set.params, "Tree", build_tree(paths, 0, 1), None, len(paths)))
+            except Untranslatable as e:
+                out.append((name, cname, None, "Tree", None, str(e), 0))
     return out
